@@ -9,7 +9,7 @@
    Nothing here refers to tables, joins, string substitution or tree rebuilding. *)
 From BT Require Import Base.Prelude Base.Str Base.Rose.
 
-Definition npath := list str.                    (* names from the root *)
+Notation npath := (list str) (only parsing).     (* names from the root *)
 Definition npath_eqb : npath -> npath -> bool := list_eqb str_eqb.
 
 Fixpoint nodes_from (prefix : npath) (t : tree) : list (npath * attrs) :=
